@@ -271,6 +271,6 @@ def df_rows(df, cols=None):
     from .probe_core import _cv
     cols = sorted(df.columns) if cols is None else cols
     rows = []
-    for _, r in df.iterrows():
+    for r in df.to_dict("records"):
         rows.append(tuple((c, _cv(r[c]) if not is_null_leaf(r[c]) else "null") for c in cols))
     return sorted(rows)
